@@ -38,6 +38,7 @@ static void outer_fn(void *ctx, size_t i)
 	}
 	vx_ev(EV_END, id, (int64_t)i);
 }
+static void post_fn(void *ctx) { (void)ctx; vx_ev(EV_NOTE, 7, 0); }
 static void barrier_fn(void *ctx) { (void)ctx; item_body(BARRIER_ITEM); g_barrier_done = 1; }
 static void racer(void *arg) { (void)arg; vx_ev(EV_CALL, BARRIER_ITEM, 0); dispatch_barrier_async_f(g_q, NULL, barrier_fn); vx_ev(EV_RET, BARRIER_ITEM, 0); }
 static void warm_fn(void *c) { *(int *)c = 1; }
@@ -79,6 +80,10 @@ static void run(int v)
 	vx_ev(EV_CALL, 1, g_n);
 	dispatch_apply_f((size_t)g_n, g_kind == K_AUTO ? DISPATCH_APPLY_AUTO : g_q, NULL, outer_fn);
 	vx_ev(EV_RET, 1, 0);
+	if (g_kind != K_AUTO && g_kind != K_GLOBAL) {
+		// the width reserved for the apply must have been given back on every level: a barrier submitted now has to run
+		dispatch_barrier_sync_f(g_q, NULL, post_fn);
+	}
 	if (th >= 0) {
 		vx_join(th);
 		int *a[2] = { &g_barrier_done, (int *)(intptr_t)1 };
@@ -120,6 +125,7 @@ static int check(int v, const vx_log *l, char *msg, size_t len)
 			}
 		}
 	}
+	if (kind != K_AUTO && kind != K_GLOBAL && ev_count(l, EV_NOTE, 7) != 1) FAILF(msg, len, "the barrier submitted after dispatch_apply returned did not run");
 	if (kind == K_NARROW || kind == K_NARROW_SLOW) {
 		// iterations are non-barrier items of a queue whose width is 2: at most 2 may be in flight
 		int open_n = 0;
